@@ -326,10 +326,24 @@ def run_cases(driver, cases, dim, real_t=np.float64):
         c["_pad_snaps"] = [(big, idx, big.copy()) for big, idx in c.get("pads", [])]
         tr = Tracer(flat, dim)
         shim.TRACERS.append(tr)
+        raised = None
         try:
             c["run"]()
+        except Exception as e:  # noqa: BLE001
+            raised = e
         finally:
             shim.TRACERS.remove(tr)
+        if raised is not None:
+            # the code under test raised on an admissible case: that is a concrete failing input; the other cases are still run
+            c["_skipped"] = True
+            if impl_failure is None:
+                impl_failure = {"ok": False, "cases": len(traces), "samples": [], "worst_rel_err": 0.0, "kernel_calls": 0,
+                                "name": "implementation raised on an admissible case",
+                                "detail": f"{c['label']}: the implementation raised {type(raised).__name__}: {str(raised)[:300]}",
+                                "failing_input": {"oracle": "kernel_raises", "case": c["label"], "error": f"{type(raised).__name__}: {str(raised)[:300]}",
+                                                  "args": {k_: _argstr(v_) for k_, v_ in c["args"].items()},
+                                                  "inputs": {m: np.asarray(a).tolist() for m, a in before_named.items()}}}
+            continue
         traces.append(tr.lines)
         overlaps.append(tr.overlaps)
         finals.append({n: np.array(a, copy=True) for n, a in flat.items()})
@@ -368,7 +382,7 @@ def run_cases(driver, cases, dim, real_t=np.float64):
             return impl_failure
         raise
     out = {"ok": True, "cases": len(cases), "samples": [], "worst_rel_err": 0.0, "kernel_calls": 0, "overlaps": overlaps}
-    for c, tr, fin, (mcalls, mbufs) in zip(cases, traces, finals, results):
+    for c, tr, fin, (mcalls, mbufs) in zip([c_ for c_ in cases if not c_.get("_skipped")], traces, finals, results):
         out["kernel_calls"] += len(tr)
         d = compare_trace(tr, mcalls, c.get("real_t", real_t))
         if d is None:
